@@ -186,7 +186,8 @@ def run_session_case(case: Dict[str, Any], rep_ops: Optional[List[Dict[str, Any]
         return rec
     plan = export_plan(sess, uni)
     rec["plan"] = {k: v for k, v in plan.items() if k != "_ren"}
-    in_kf = bool(kf_tfs_partial_requirement(plan) or kf_framework_roundtrip(plan) or kf_tfs_missing(plan))
+    from harness import planner_b      # defect domains decided in Coq (Model/PlanDefects.v classify_plan), cached per plan
+    in_kf = bool(planner_b.classify_cached(plan, rep_prefix="C07"))
     rec["in_kf"] = in_kf
     threading_ok = (not in_kf) and case.get("threading_ok", True)
     mix = None
@@ -1071,7 +1072,8 @@ def admit_mode(uni: Uni7, case: Dict[str, Any], call: Dict[str, Any], rec: Dict[
     cfx = mp_obs.conflict_free_py(plan, foot, across_objects_only=True)
     rec.setdefault("cf_decisions", []).append(({k: v for k, v in plan.items() if k != "_ren"}, foot, cf, cfx))
     why = None
-    if kf_tfs_partial_requirement(plan) or kf_framework_roundtrip(plan) or kf_tfs_missing(plan):
+    from harness import planner_b
+    if planner_b.classify_cached(plan, rep_prefix="C07"):
         why = "planner defect domain"
     elif not cf:
         why = "unordered steps on one object"
